@@ -1424,4 +1424,498 @@ theorem obsInv_step {s s' : State} {l : Label} (h : ObsInv s)
     refine obs_transfer h (fun d hd => hd) rfl ?_
     intro u tx' hu; exact Or.inr ⟨tx', hu, Or.inl rfl, rfl, fun i hi => Or.inl hi, rfl, rfl, rfl⟩
 
+/-- committed writers among the users of `n` ended no later (in commits) than version `k` -/
+def CommittedBefore (s : State) (n : Name) (k : Nat) : Prop :=
+  ∀ u ∈ s.users n, ∀ utx, s.txs u = some utx → utx.isWrite = true → utx.isOpen = false → utx.failed = false → utx.endVer ≤ k
+
+structure NOInv (s : State) : Prop where
+  ver : ∀ t tx, s.txs t = some tx → tx.snap ≤ s.nver ∧ tx.endVer ≤ s.nver ∧
+    (tx.isWrite = true → tx.isOpen = true → tx.snap = s.nver ∧ s.writer = some t)
+  fresh : ∀ t tx n, s.txs t = some tx → tx.isOpen = true → (tx.isWrite = true → t ∉ s.users n) →
+    CommittedBefore s n tx.snap → tx.view.idx n = s.latest.idx n
+  committed : ∀ w tx n o, s.txs w = some tx → tx.isWrite = true → tx.isOpen = false → tx.failed = false →
+    tx.cur n = some o → tx.view.idx n = s.latest.idx n
+  cur : ∀ t tx n o, s.txs t = some tx → tx.cur n = some o → ¬ Done s t n →
+    t ∈ s.users n ∧ ∃ ob, s.objs o = some ob ∧ ob.name = n ∧ ob.owner = t ∧ Agree ob n tx.view
+  excl : ∀ n t tx, t ∈ s.users n → s.txs t = some tx → ¬ Done s t n →
+    ∀ u ∈ s.users n, u ≠ t → Done s u n ∧ endVerOf s u ≤ tx.snap
+  map : ∀ n o, s.map n = some o → ∃ ob, s.objs o = some ob ∧ ob.name = n ∧
+    (∀ u ∈ s.users n, ¬ Done s u n → ∃ tx, s.txs u = some tx ∧ Agree ob n tx.view) ∧
+    ((∀ u ∈ s.users n, Done s u n) → Agree ob n s.latest)
+  wmap : ∀ t tx n o, s.txs t = some tx → tx.isWrite = true → tx.cur n = some o → (s.map n = none ∨ s.map n = some o)
+  wusers : ∀ w tx n, s.txs w = some tx → tx.isWrite = true → tx.isOpen = true → w ∈ s.users n → tx.cur n ≠ none
+  pm : s.shared = false → ∀ n, s.map n = none
+  bound : ∀ o ob, s.objs o = some ob → o < s.nextObj
+  users : ∀ n u, u ∈ s.users n → ∃ tx, s.txs u = some tx
+
+theorem noInv_init (sh : Bool) (d0 : Disk) : NOInv (init sh d0) := by
+  refine ⟨?_, ?_, ?_, ?_, ?_, ?_, ?_, ?_, ?_, ?_, ?_⟩ <;> intros <;> simp_all [init]
+
+/-- `Done` only looks at three fields of the transaction's record -/
+theorem done_of_eq {s s' : State} {u : TxId} {n : Name}
+    (h : ∀ tx, s.txs u = some tx → ∃ tx', s'.txs u = some tx' ∧ tx'.isOpen = tx.isOpen ∧ tx'.isWrite = tx.isWrite ∧
+      tx'.cur n = tx.cur n) : Done s u n → Done s' u n := by
+  rintro ⟨tx, h1, h2, h3⟩
+  obtain ⟨tx', g1, g2, g3, g4⟩ := h tx h1
+  exact ⟨tx', g1, g2.trans h2, fun hw => g4.trans (h3 (g3 ▸ hw))⟩
+
+theorem done_same {s s' : State} {u : TxId} {n : Name} (h : s'.txs u = s.txs u) : Done s' u n ↔ Done s u n := by
+  unfold Done; rw [h]
+
+theorem endVerOf_same {s s' : State} {u : TxId} (h : s'.txs u = s.txs u) : endVerOf s' u = endVerOf s u := by
+  unfold endVerOf; rw [h]
+
+theorem not_done_of_open {s : State} {t : TxId} {tx : Tx} {n : Name} (ht : s.txs t = some tx) (ho : tx.isOpen = true) :
+    ¬ Done s t n := by
+  rintro ⟨tx', h1, h2, _⟩
+  rw [ht] at h1; simp only [Option.some.injEq] at h1; subst h1
+  rw [ho] at h2; simp at h2
+
+/-- a new transaction (begin) keeps the invariant -/
+theorem noInv_begin {s : State} (h : NOInv s) {t : TxId} (w : Bool) (ht : s.txs t = none) (wr' : Option TxId)
+    (hw : w = true → s.writer = none ∧ wr' = some t) (hr : w = false → wr' = s.writer) :
+    NOInv { s with txs := upd s.txs t (some (newTx s w)), writer := wr' } := by
+  have hnu : ∀ n, t ∉ s.users n := fun n hmem => by
+    obtain ⟨tx, htx⟩ := h.users n t hmem; rw [ht] at htx; simp at htx
+  have hdone : ∀ u n, u ≠ t → (Done { s with txs := upd s.txs t (some (newTx s w)), writer := wr' } u n ↔ Done s u n) :=
+    fun u n hne => done_same (by simp [upd, hne])
+  have hdone' : ∀ u n, u ∈ s.users n → (Done { s with txs := upd s.txs t (some (newTx s w)), writer := wr' } u n ↔ Done s u n) :=
+    fun u n hu => hdone u n (fun e => hnu n (e ▸ hu))
+  -- an open writer of `s` contradicts `writer = none`
+  have hnow : w = true → ∀ u tx, s.txs u = some tx → tx.isWrite = true → tx.isOpen = true → False := by
+    intro hwt u tx hu h1 h2
+    have := ((h.ver u tx hu).2.2 h1 h2).2
+    rw [(hw hwt).1] at this; simp at this
+  refine ⟨?_, ?_, ?_, ?_, ?_, ?_, ?_, ?_, h.pm, h.bound, ?_⟩
+  · intro u tx hu
+    dsimp only at hu ⊢
+    rcases upd_some_cases hu with ⟨rfl, rfl⟩ | ⟨hne, hold⟩
+    · refine ⟨Nat.le_refl _, Nat.zero_le _, ?_⟩
+      intro hw1 _
+      cases w with
+      | false => simp [newTx] at hw1
+      | true => exact ⟨rfl, (hw rfl).2⟩
+    · obtain ⟨a, b, c⟩ := h.ver u tx hold
+      refine ⟨a, b, ?_⟩
+      intro h1 h2
+      cases w with
+      | false => rw [hr rfl]; exact c h1 h2
+      | true => exact absurd (hnow rfl u tx hold h1 h2) id
+  · intro u tx n hu hop hwn hcb
+    dsimp only at hu hwn hcb ⊢
+    rcases upd_some_cases hu with ⟨rfl, rfl⟩ | ⟨hne, hold⟩
+    · rfl
+    · refine h.fresh u tx n hold hop hwn ?_
+      intro v hv vtx hvt
+      have : v ≠ t := fun e => hnu n (e ▸ hv)
+      exact hcb v hv vtx (by simp [upd, this]; exact hvt)
+  · intro u tx n o hu h1 h2 h3 h4
+    dsimp only at hu ⊢
+    rcases upd_some_cases hu with ⟨rfl, rfl⟩ | ⟨hne, hold⟩
+    · simp [newTx] at h2
+    · exact h.committed u tx n o hold h1 h2 h3 h4
+  · intro u tx n o hu hc hnd
+    dsimp only at hu ⊢
+    rcases upd_some_cases hu with ⟨rfl, rfl⟩ | ⟨hne, hold⟩
+    · simp [newTx] at hc
+    · exact h.cur u tx n o hold hc (fun hd => hnd ((hdone u n hne).2 hd))
+  · intro n u tx hu hut hnd v hv hne
+    dsimp only at hu hut hv ⊢
+    have hut' : u ≠ t := fun e => hnu n (e ▸ hu)
+    have hvt' : v ≠ t := fun e => hnu n (e ▸ hv)
+    rw [upd_other _ _ _ _ hut'] at hut
+    have := h.excl n u tx hu hut (fun hd => hnd ((hdone u n hut').2 hd)) v hv hne
+    exact ⟨(hdone v n hvt').2 this.1, by rw [endVerOf_same (s := s) (by simp [upd, hvt'])]; exact this.2⟩
+  · intro n o hm
+    dsimp only at hm ⊢
+    obtain ⟨ob, hob, hn, ha, hb⟩ := h.map n o hm
+    refine ⟨ob, hob, hn, ?_, ?_⟩
+    · intro u hu hnd
+      obtain ⟨tx, htx, hag⟩ := ha u hu (fun hd => hnd ((hdone' u n hu).2 hd))
+      have : u ≠ t := fun e => hnu n (e ▸ hu)
+      exact ⟨tx, by simp [upd, this]; exact htx, hag⟩
+    · intro hall
+      exact hb (fun u hu => (hdone' u n hu).1 (hall u hu))
+  · intro u tx n o hu h1 h2
+    dsimp only at hu ⊢
+    rcases upd_some_cases hu with ⟨rfl, rfl⟩ | ⟨hne, hold⟩
+    · simp [newTx] at h2
+    · exact h.wmap u tx n o hold h1 h2
+  · intro u tx n hu h1 h2 h3
+    dsimp only at hu h3 ⊢
+    rcases upd_some_cases hu with ⟨rfl, rfl⟩ | ⟨hne, hold⟩
+    · exact absurd h3 (hnu n)
+    · exact h.wusers u tx n hold h1 h2 h3
+  · intro n u hu
+    dsimp only at hu ⊢
+    obtain ⟨tx, htx⟩ := h.users n u hu
+    have : u ≠ t := fun e => hnu n (e ▸ hu)
+    exact ⟨tx, by simp [upd, this]; exact htx⟩
+
+
+/-- the fields of a transaction record the no-overlap invariant looks at -/
+def CoreEq (tx tx' : Tx) : Prop :=
+  tx'.isWrite = tx.isWrite ∧ tx'.snap = tx.snap ∧ tx'.view = tx.view ∧ tx'.isOpen = tx.isOpen ∧
+  tx'.failed = tx.failed ∧ tx'.endVer = tx.endVer ∧ tx'.cur = tx.cur
+
+theorem CoreEq.refl (tx : Tx) : CoreEq tx tx := ⟨rfl, rfl, rfl, rfl, rfl, rfl, rfl⟩
+
+/-- steps that change no field the invariant looks at, except that the object `o` which the open
+transaction `t` uses for `n` may get new items that agree with `t`'s view -/
+theorem noInv_readlike {s s' : State} (h : NOInv s) (e0 : s'.shared = s.shared)
+    (e1 : s'.latest = s.latest) (e2 : s'.nver = s.nver) (e3 : s'.writer = s.writer) (e4 : s'.map = s.map)
+    (e5 : s'.users = s.users) (e6 : s'.nextObj = s.nextObj)
+    (htx : ∀ u tx', s'.txs u = some tx' → ∃ tx, s.txs u = some tx ∧ CoreEq tx tx')
+    (htx2 : ∀ u tx, s.txs u = some tx → ∃ tx', s'.txs u = some tx' ∧ CoreEq tx tx')
+    {t : TxId} {txt : Tx} {n : Name} {o : ObjId} (ht : s.txs t = some txt) (hop : txt.isOpen = true) (hc : txt.cur n = some o)
+    (hob : ∀ o1 ob1, s.objs o1 = some ob1 → ∃ ob1', s'.objs o1 = some ob1' ∧ ob1'.name = ob1.name ∧ ob1'.owner = ob1.owner ∧
+      (o1 ≠ o → ob1' = ob1) ∧ (∀ d, Agree ob1 n d → d.idx n = txt.view.idx n → Agree ob1' n d))
+    (hob2 : ∀ o1 ob1', s'.objs o1 = some ob1' → ∃ ob1, s.objs o1 = some ob1) : NOInv s' := by
+  have hdone : ∀ u m, Done s' u m ↔ Done s u m := by
+    intro u m
+    constructor
+    · rintro ⟨tx', g1, g2, g3⟩
+      obtain ⟨tx, f1, c⟩ := htx u tx' g1
+      exact ⟨tx, f1, c.2.2.2.1 ▸ g2, fun hw => by rw [← c.2.2.2.2.2.2]; exact g3 (c.1 ▸ hw)⟩
+    · rintro ⟨tx, f1, f2, f3⟩
+      obtain ⟨tx', g1, c⟩ := htx2 u tx f1
+      exact ⟨tx', g1, c.2.2.2.1.trans f2, fun hw => by rw [c.2.2.2.2.2.2]; exact f3 (c.1 ▸ hw)⟩
+  have hend : ∀ u, endVerOf s' u = endVerOf s u := by
+    intro u
+    unfold endVerOf
+    cases hu : s.txs u with
+    | none =>
+      cases hu' : s'.txs u with
+      | none => rfl
+      | some tx' => obtain ⟨tx, f1, _⟩ := htx u tx' hu'; rw [hu] at f1; simp at f1
+    | some tx =>
+      obtain ⟨tx', g1, c⟩ := htx2 u tx hu
+      rw [g1]; exact c.2.2.2.2.2.1
+  have hcb : ∀ m k, CommittedBefore s' m k → CommittedBefore s m k := by
+    intro m k hcb u hu utx f1 f2 f3 f4
+    obtain ⟨tx', g1, c⟩ := htx2 u utx f1
+    have := hcb u (e5 ▸ hu) tx' g1 (c.1.trans f2) (c.2.2.2.1.trans f3) (c.2.2.2.2.1.trans f4)
+    rw [c.2.2.2.2.2.1] at this; exact this
+  obtain ⟨hmem, obt, hobt, hnm, hown, hagt⟩ := h.cur t txt n o ht hc (not_done_of_open ht hop)
+  refine ⟨?_, ?_, ?_, ?_, ?_, ?_, ?_, ?_, by rw [e0, e4]; exact h.pm, ?_, ?_⟩
+  · intro u tx' g1
+    obtain ⟨tx, f1, c⟩ := htx u tx' g1
+    obtain ⟨a, b, d⟩ := h.ver u tx f1
+    rw [e2, e3, c.2.1, c.2.2.2.2.2.1, c.1, c.2.2.2.1]; exact ⟨a, b, d⟩
+  · intro u tx' m g1 g2 g3 g4
+    obtain ⟨tx, f1, c⟩ := htx u tx' g1
+    rw [e1, c.2.2.1]
+    exact h.fresh u tx m f1 (c.2.2.2.1 ▸ g2) (fun hw => by rw [← e5]; exact g3 (c.1.trans hw)) (hcb m _ (c.2.1 ▸ g4))
+  · intro u tx' m o' g1 g2 g3 g4 g5
+    obtain ⟨tx, f1, c⟩ := htx u tx' g1
+    rw [e1, c.2.2.1]
+    exact h.committed u tx m o' f1 (c.1 ▸ g2) (c.2.2.2.1 ▸ g3) (c.2.2.2.2.1 ▸ g4) (by rw [← c.2.2.2.2.2.2]; exact g5)
+  · intro u tx' m o' g1 g2 g3
+    obtain ⟨tx, f1, c⟩ := htx u tx' g1
+    obtain ⟨hm, ob1, hob1, hn1, how1, hag1⟩ := h.cur u tx m o' f1 (by rw [← c.2.2.2.2.2.2]; exact g2) (fun hd => g3 ((hdone u m).2 hd))
+    obtain ⟨ob1', g5, g6, g7, g8, g9⟩ := hob o' ob1 hob1
+    refine ⟨e5 ▸ hm, ob1', g5, g6.trans hn1, g7.trans how1, ?_⟩
+    rw [c.2.2.1]
+    by_cases e : o' = o
+    · subst e
+      rw [hobt] at hob1; simp only [Option.some.injEq] at hob1; subst hob1
+      have hut : u = t := how1.symm.trans hown
+      subst hut
+      rw [ht] at f1; simp only [Option.some.injEq] at f1; subst f1
+      have hmn : m = n := hn1.symm.trans hnm
+      subst hmn
+      exact g9 _ hag1 rfl
+    · rw [g8 e]; exact hag1
+  · intro m u tx' g1 g2 g3 v g4 g5
+    obtain ⟨tx, f1, c⟩ := htx u tx' g2
+    have := h.excl m u tx (e5 ▸ g1) f1 (fun hd => g3 ((hdone u m).2 hd)) v (e5 ▸ g4) g5
+    rw [c.2.1, hend]; exact ⟨(hdone v m).2 this.1, this.2⟩
+  · intro m o' g1
+    rw [e4] at g1
+    obtain ⟨ob1, hob1, hn1, ha, hb⟩ := h.map m o' g1
+    obtain ⟨ob1', g5, g6, g7, g8, g9⟩ := hob o' ob1 hob1
+    refine ⟨ob1', g5, g6.trans hn1, ?_, ?_⟩
+    · intro u g2 g3
+      obtain ⟨tx, f1, hag⟩ := ha u (e5 ▸ g2) (fun hd => g3 ((hdone u m).2 hd))
+      obtain ⟨tx', g4, c⟩ := htx2 u tx f1
+      refine ⟨tx', g4, ?_⟩
+      rw [c.2.2.1]
+      by_cases e : o' = o
+      · subst e
+        rw [hobt] at hob1; simp only [Option.some.injEq] at hob1; subst hob1
+        have hmn : m = n := hn1.symm.trans hnm
+        subst hmn
+        -- the active user of `m` is `t`
+        have hut : u = t := by
+          by_cases hut : u = t
+          · exact hut
+          · exact absurd (h.excl m t txt hmem ht (not_done_of_open ht hop) u (e5 ▸ g2) hut).1 (fun hd => g3 ((hdone u m).2 hd))
+        subst hut
+        rw [ht] at f1; simp only [Option.some.injEq] at f1; subst f1
+        exact g9 _ hag rfl
+      · rw [g8 e]; exact hag
+    · intro hall
+      by_cases e : o' = o
+      · subst e
+        rw [hobt] at hob1; simp only [Option.some.injEq] at hob1; subst hob1
+        have hmn : m = n := hn1.symm.trans hnm
+        subst hmn
+        exact absurd ((hdone t m).1 (hall t (e5 ▸ hmem))) (not_done_of_open ht hop)
+      · rw [g8 e, e1]; exact hb (fun u hu => (hdone u m).1 (hall u (e5 ▸ hu)))
+  · intro u tx' m o' g1 g2 g3
+    obtain ⟨tx, f1, c⟩ := htx u tx' g1
+    rw [e4]; exact h.wmap u tx m o' f1 (c.1 ▸ g2) (by rw [← c.2.2.2.2.2.2]; exact g3)
+  · intro u tx' m g1 g2 g3 g4
+    obtain ⟨tx, f1, c⟩ := htx u tx' g1
+    rw [c.2.2.2.2.2.2]; exact h.wusers u tx m f1 (c.1 ▸ g2) (c.2.2.2.1 ▸ g3) (e5 ▸ g4)
+  · intro o1 ob1' g1
+    obtain ⟨ob1, f1⟩ := hob2 o1 ob1' g1
+    rw [e6]; exact h.bound o1 ob1 f1
+  · intro m u g1
+    obtain ⟨tx, f1⟩ := h.users m u (e5 ▸ g1)
+    obtain ⟨tx', g2, _⟩ := htx2 u tx f1
+    exact ⟨tx', g2⟩
+
+
+/-- like `CoreEq`, but a reader may have left a cache object (`cur` shrinks) -/
+def CoreLe (tx tx' : Tx) : Prop :=
+  tx'.isWrite = tx.isWrite ∧ tx'.snap = tx.snap ∧ tx'.view = tx.view ∧ tx'.isOpen = tx.isOpen ∧
+  tx'.failed = tx.failed ∧ tx'.endVer = tx.endVer ∧ (∀ m o, tx'.cur m = some o → tx.cur m = some o) ∧
+  (tx.isWrite = true → tx'.cur = tx.cur)
+
+theorem CoreEq.le {tx tx' : Tx} (c : CoreEq tx tx') : CoreLe tx tx' :=
+  ⟨c.1, c.2.1, c.2.2.1, c.2.2.2.1, c.2.2.2.2.1, c.2.2.2.2.2.1, fun m o h => by rw [← c.2.2.2.2.2.2]; exact h, fun _ => c.2.2.2.2.2.2⟩
+
+/-- steps that change no field the invariant looks at (readers may drop objects; objects keep
+name, owner and items) -/
+theorem noInv_coreSame {s s' : State} (h : NOInv s) (e0 : s'.shared = s.shared)
+    (e1 : s'.latest = s.latest) (e2 : s'.nver = s.nver) (e3 : s'.writer = s.writer) (e4 : s'.map = s.map)
+    (e5 : s'.users = s.users) (e6 : s'.nextObj = s.nextObj)
+    (hob : ∀ o1 ob1, s.objs o1 = some ob1 → ∃ ob1', s'.objs o1 = some ob1' ∧ ob1'.name = ob1.name ∧ ob1'.owner = ob1.owner ∧
+      ob1'.items = ob1.items)
+    (hob2 : ∀ o1 ob1', s'.objs o1 = some ob1' → ∃ ob1, s.objs o1 = some ob1)
+    (htx : ∀ u tx', s'.txs u = some tx' → ∃ tx, s.txs u = some tx ∧ CoreLe tx tx')
+    (htx2 : ∀ u tx, s.txs u = some tx → ∃ tx', s'.txs u = some tx' ∧ CoreLe tx tx') : NOInv s' := by
+  have hdone : ∀ u m, Done s' u m ↔ Done s u m := by
+    intro u m
+    constructor
+    · rintro ⟨tx', g1, g2, g3⟩
+      obtain ⟨tx, f1, c⟩ := htx u tx' g1
+      exact ⟨tx, f1, c.2.2.2.1 ▸ g2, fun hw => by rw [← c.2.2.2.2.2.2.2 hw]; exact g3 (c.1 ▸ hw)⟩
+    · rintro ⟨tx, f1, f2, f3⟩
+      obtain ⟨tx', g1, c⟩ := htx2 u tx f1
+      exact ⟨tx', g1, c.2.2.2.1.trans f2, fun hw => by rw [c.2.2.2.2.2.2.2 (c.1 ▸ hw)]; exact f3 (c.1 ▸ hw)⟩
+  have hend : ∀ u, endVerOf s' u = endVerOf s u := by
+    intro u
+    unfold endVerOf
+    cases hu : s.txs u with
+    | none =>
+      cases hu' : s'.txs u with
+      | none => rfl
+      | some tx' => obtain ⟨tx, f1, _⟩ := htx u tx' hu'; rw [hu] at f1; simp at f1
+    | some tx =>
+      obtain ⟨tx', g1, c⟩ := htx2 u tx hu
+      rw [g1]; exact c.2.2.2.2.2.1
+  have hcb : ∀ m k, CommittedBefore s' m k → CommittedBefore s m k := by
+    intro m k hcb u hu utx f1 f2 f3 f4
+    obtain ⟨tx', g1, c⟩ := htx2 u utx f1
+    have := hcb u (e5 ▸ hu) tx' g1 (c.1.trans f2) (c.2.2.2.1.trans f3) (c.2.2.2.2.1.trans f4)
+    rw [c.2.2.2.2.2.1] at this; exact this
+  refine ⟨?_, ?_, ?_, ?_, ?_, ?_, ?_, ?_, by rw [e0, e4]; exact h.pm, ?_, ?_⟩
+  · intro u tx' g1
+    obtain ⟨tx, f1, c⟩ := htx u tx' g1
+    obtain ⟨a, b, d⟩ := h.ver u tx f1
+    rw [e2, e3, c.2.1, c.2.2.2.2.2.1, c.1, c.2.2.2.1]; exact ⟨a, b, d⟩
+  · intro u tx' m g1 g2 g3 g4
+    obtain ⟨tx, f1, c⟩ := htx u tx' g1
+    rw [e1, c.2.2.1]
+    exact h.fresh u tx m f1 (c.2.2.2.1 ▸ g2) (fun hw => by rw [← e5]; exact g3 (c.1.trans hw)) (hcb m _ (c.2.1 ▸ g4))
+  · intro u tx' m o' g1 g2 g3 g4 g5
+    obtain ⟨tx, f1, c⟩ := htx u tx' g1
+    rw [e1, c.2.2.1]
+    exact h.committed u tx m o' f1 (c.1 ▸ g2) (c.2.2.2.1 ▸ g3) (c.2.2.2.2.1 ▸ g4) (c.2.2.2.2.2.2.1 m o' g5)
+  · intro u tx' m o' g1 g2 g3
+    obtain ⟨tx, f1, c⟩ := htx u tx' g1
+    obtain ⟨hm, ob1, hob1, hn1, how1, hag1⟩ := h.cur u tx m o' f1 (c.2.2.2.2.2.2.1 m o' g2) (fun hd => g3 ((hdone u m).2 hd))
+    obtain ⟨ob1', k1, k2, k3, k4⟩ := hob o' ob1 hob1
+    exact ⟨e5 ▸ hm, ob1', k1, k2.trans hn1, k3.trans how1, c.2.2.1 ▸ agree_congr hag1 k4 rfl⟩
+  · intro m u tx' g1 g2 g3 v g4 g5
+    obtain ⟨tx, f1, c⟩ := htx u tx' g2
+    have := h.excl m u tx (e5 ▸ g1) f1 (fun hd => g3 ((hdone u m).2 hd)) v (e5 ▸ g4) g5
+    rw [c.2.1, hend]; exact ⟨(hdone v m).2 this.1, this.2⟩
+  · intro m o' g1
+    rw [e4] at g1
+    obtain ⟨ob1, hob1, hn1, ha, hb⟩ := h.map m o' g1
+    obtain ⟨ob1', k1, k2, k3, k4⟩ := hob o' ob1 hob1
+    refine ⟨ob1', k1, k2.trans hn1, ?_, ?_⟩
+    · intro u g2 g3
+      obtain ⟨tx, f1, hag⟩ := ha u (e5 ▸ g2) (fun hd => g3 ((hdone u m).2 hd))
+      obtain ⟨tx', g4, c⟩ := htx2 u tx f1
+      exact ⟨tx', g4, c.2.2.1 ▸ agree_congr hag k4 rfl⟩
+    · intro hall
+      rw [e1]; exact agree_congr (hb (fun u hu => (hdone u m).1 (hall u (e5 ▸ hu)))) k4 rfl
+  · intro u tx' m o' g1 g2 g3
+    obtain ⟨tx, f1, c⟩ := htx u tx' g1
+    rw [e4]; exact h.wmap u tx m o' f1 (c.1 ▸ g2) (c.2.2.2.2.2.2.1 m o' g3)
+  · intro u tx' m g1 g2 g3 g4
+    obtain ⟨tx, f1, c⟩ := htx u tx' g1
+    rw [c.2.2.2.2.2.2.2 (c.1 ▸ g2)]; exact h.wusers u tx m f1 (c.1 ▸ g2) (c.2.2.2.1 ▸ g3) (e5 ▸ g4)
+  · intro o1 ob1' g1
+    obtain ⟨ob1, f1⟩ := hob2 o1 ob1' g1
+    rw [e6]; exact h.bound o1 ob1 f1
+  · intro m u g1
+    obtain ⟨tx, f1⟩ := h.users m u (e5 ▸ g1)
+    obtain ⟨tx', g2, _⟩ := htx2 u tx f1
+    exact ⟨tx', g2⟩
+
+theorem objs_same_keep {objs : ObjId → Option Obj} :
+    (∀ o1 ob1, objs o1 = some ob1 → ∃ ob1', objs o1 = some ob1' ∧ ob1'.name = ob1.name ∧ ob1'.owner = ob1.owner ∧
+      ob1'.items = ob1.items) ∧ (∀ o1 ob1', objs o1 = some ob1' → ∃ ob1, objs o1 = some ob1) :=
+  ⟨fun _ ob1 h => ⟨ob1, h, rfl, rfl, rfl⟩, fun _ ob1 h => ⟨ob1, h⟩⟩
+
+theorem objs_upd_keep {objs : ObjId → Option Obj} {o : ObjId} {ob ob' : Obj} (ho : objs o = some ob)
+    (h1 : ob'.name = ob.name) (h2 : ob'.owner = ob.owner) (h3 : ob'.items = ob.items) :
+    (∀ o1 ob1, objs o1 = some ob1 → ∃ ob1', upd objs o (some ob') o1 = some ob1' ∧ ob1'.name = ob1.name ∧
+      ob1'.owner = ob1.owner ∧ ob1'.items = ob1.items) ∧
+    (∀ o1 ob1', upd objs o (some ob') o1 = some ob1' → ∃ ob1, objs o1 = some ob1) := by
+  constructor
+  · intro o1 ob1 h
+    by_cases e : o1 = o
+    · subst e; rw [ho] at h; simp only [Option.some.injEq] at h; subst h
+      exact ⟨ob', upd_same _ _ _, h1, h2, h3⟩
+    · exact ⟨ob1, by rw [upd_other _ _ _ _ e]; exact h, rfl, rfl, rfl⟩
+  · intro o1 ob1' h
+    rcases upd_some_cases h with ⟨rfl, _⟩ | ⟨_, hold⟩
+    · exact ⟨ob, ho⟩
+    · exact ⟨ob1', hold⟩
+
+/-- `txs` updated at `t` with a record that has the same core -/
+theorem coreEq_upd {txs : TxId → Option Tx} {t : TxId} {tx tx1 : Tx} (ht : txs t = some tx) (c : CoreEq tx tx1) :
+    (∀ u tx', upd txs t (some tx1) u = some tx' → ∃ tx0, txs u = some tx0 ∧ CoreEq tx0 tx') ∧
+    (∀ u tx0, txs u = some tx0 → ∃ tx', upd txs t (some tx1) u = some tx' ∧ CoreEq tx0 tx') := by
+  constructor
+  · intro u tx' hu
+    rcases upd_some_cases hu with ⟨rfl, rfl⟩ | ⟨_, hold⟩
+    · exact ⟨tx, ht, c⟩
+    · exact ⟨tx', hold, CoreEq.refl _⟩
+  · intro u tx0 hu
+    by_cases e : u = t
+    · subst e; rw [ht] at hu; simp only [Option.some.injEq] at hu; subst hu
+      exact ⟨tx1, upd_same _ _ _, c⟩
+    · exact ⟨tx0, by rw [upd_other _ _ _ _ e]; exact hu, CoreEq.refl _⟩
+
+theorem coreLe_upd {txs : TxId → Option Tx} {t : TxId} {tx tx1 : Tx} (ht : txs t = some tx) (c : CoreLe tx tx1) :
+    (∀ u tx', upd txs t (some tx1) u = some tx' → ∃ tx0, txs u = some tx0 ∧ CoreLe tx0 tx') ∧
+    (∀ u tx0, txs u = some tx0 → ∃ tx', upd txs t (some tx1) u = some tx' ∧ CoreLe tx0 tx') := by
+  constructor
+  · intro u tx' hu
+    rcases upd_some_cases hu with ⟨rfl, rfl⟩ | ⟨_, hold⟩
+    · exact ⟨tx, ht, c⟩
+    · exact ⟨tx', hold, (CoreEq.refl _).le⟩
+  · intro u tx0 hu
+    by_cases e : u = t
+    · subst e; rw [ht] at hu; simp only [Option.some.injEq] at hu; subst hu
+      exact ⟨tx1, upd_same _ _ _, c⟩
+    · exact ⟨tx0, by rw [upd_other _ _ _ _ e]; exact hu, (CoreEq.refl _).le⟩
+
+macro "corele_upd" ht:ident : tactic =>
+  `(tactic| (dsimp only
+             first
+               | (refine (coreLe_upd $ht ?_).1; exact (CoreEq.le ⟨rfl, rfl, rfl, rfl, rfl, rfl, rfl⟩))
+               | (refine (coreLe_upd $ht ?_).2; exact (CoreEq.le ⟨rfl, rfl, rfl, rfl, rfl, rfl, rfl⟩))))
+
+/-- both transaction side conditions of `noInv_coreSame` / `noInv_readlike` when `txs` was updated at
+`t` (hypothesis `ht : s.txs t = some tx`) with a record that has the same core -/
+macro "core_upd" ht:ident : tactic =>
+  `(tactic| (dsimp only
+             first
+               | (refine (coreEq_upd $ht ?_).1; exact ⟨rfl, rfl, rfl, rfl, rfl, rfl, rfl⟩)
+               | (refine (coreEq_upd $ht ?_).2; exact ⟨rfl, rfl, rfl, rfl, rfl, rfl, rfl⟩)))
+
+theorem noInv_read {s s' : State} {t : TxId} {n : Name} {i : Item} (h : NOInv s) (hs : stepRead s t n i = some s') :
+    NOInv s' := by
+  obtain ⟨tx, o, ob, ht, hop, hc, ho, hcase⟩ := stepRead_some hs
+  obtain ⟨hmem, ob0, hob0, hnm, hown, hag⟩ := h.cur t tx n o ht hc (not_done_of_open ht hop)
+  rw [ho] at hob0; simp only [Option.some.injEq] at hob0; subst hob0
+  cases hcase with
+  | hit v k hi =>
+    simp only [observe, setBad]
+    split <;> (refine noInv_coreSame h rfl rfl rfl rfl rfl rfl rfl objs_same_keep.1 objs_same_keep.2 ?_ ?_ <;> corele_upd ht)
+  | dead otx hi hoo hcl =>
+    simp only [setBad]
+    refine noInv_coreSame h rfl rfl rfl rfl rfl rfl rfl objs_same_keep.1 objs_same_keep.2 ?_ ?_ <;> corele_upd ht
+  | through otx hi hoo hcl =>
+    rw [hown, ht] at hoo
+    simp only [Option.some.injEq] at hoo
+    subst hoo
+    have hobj : ∀ o1 ob1, s.objs o1 = some ob1 → ∃ ob1', upd s.objs o (some (cacheFill ob i (tx.view.idx n i) tx.snap)) o1 = some ob1' ∧
+        ob1'.name = ob1.name ∧ ob1'.owner = ob1.owner ∧ (o1 ≠ o → ob1' = ob1) ∧
+        (∀ d, Agree ob1 n d → d.idx n = tx.view.idx n → Agree ob1' n d) := by
+      intro o1 ob1 h1
+      by_cases e : o1 = o
+      · subst e
+        rw [ho] at h1; simp only [Option.some.injEq] at h1; subst h1
+        refine ⟨_, upd_same _ _ _, cacheFill_name _ _ _ _, cacheFill_owner _ _ _ _, fun e => absurd rfl e, ?_⟩
+        intro d hd hdi
+        have := agree_cacheFill hd i tx.snap
+        rw [hdi] at this; exact this
+      · exact ⟨ob1, by rw [upd_other _ _ _ _ e]; exact h1, rfl, rfl, fun _ => rfl, fun d hd _ => hd⟩
+    have hobj2 : ∀ o1 ob1', upd s.objs o (some (cacheFill ob i (tx.view.idx n i) tx.snap)) o1 = some ob1' → ∃ ob1, s.objs o1 = some ob1 := by
+      intro o1 ob1' h1
+      rcases upd_some_cases h1 with ⟨rfl, _⟩ | ⟨_, hold⟩
+      · exact ⟨ob, ho⟩
+      · exact ⟨ob1', hold⟩
+    simp only [observe, setBad]
+    split <;> (refine noInv_readlike h rfl rfl rfl rfl rfl rfl rfl ?_ ?_ ht hop hc hobj hobj2 <;> core_upd ht)
+
+
+theorem noInv_backfill {s s' : State} {t : TxId} {i : Item} (h : NOInv s) (hs : stepBackfill s t i = some s') : NOInv s' := by
+  obtain ⟨tx, ht, hw, hop, hseen, hcase⟩ := stepBackfill_some hs
+  rcases hcase with ⟨_, rfl⟩ | ⟨hnone, rfl⟩
+  · exact h
+  · simp only [setBad]
+    refine noInv_coreSame h rfl rfl rfl rfl rfl rfl rfl objs_same_keep.1 objs_same_keep.2 ?_ ?_ <;> corele_upd ht
+
+theorem noInv_leave {s s' : State} {t : TxId} {n : Name} (h : NOInv s) (hs : stepLeave s t n = some s') : NOInv s' := by
+  obtain ⟨tx, o, ob, ht, hw, hc, ho, rfl⟩ := stepLeave_some hs
+  have hk := objs_upd_keep (ob' := { ob with readers := ob.readers - 1 }) ho rfl rfl rfl
+  refine noInv_coreSame h rfl rfl rfl rfl rfl rfl rfl hk.1 hk.2 ?_ ?_
+  · dsimp only
+    refine (coreLe_upd ht ?_).1
+    refine ⟨rfl, rfl, rfl, rfl, rfl, rfl, ?_, ?_⟩
+    · intro m o' hm
+      dsimp only at hm
+      rcases upd_opt_cases hm with ⟨_, hx⟩ | ⟨_, hold⟩
+      · simp at hx
+      · exact hold
+    · intro hw'; rw [hw] at hw'; simp at hw'
+  · dsimp only
+    refine (coreLe_upd ht ?_).2
+    refine ⟨rfl, rfl, rfl, rfl, rfl, rfl, ?_, ?_⟩
+    · intro m o' hm
+      dsimp only at hm
+      rcases upd_opt_cases hm with ⟨_, hx⟩ | ⟨_, hold⟩
+      · simp at hx
+      · exact hold
+    · intro hw'; rw [hw] at hw'; simp at hw'
+
+theorem noInv_evict {s : State} (n0 : Name) (h : NOInv s) : NOInv { s with map := upd s.map n0 none } := by
+  have hdone : ∀ u m, Done { s with map := upd s.map n0 none } u m ↔ Done s u m := fun u m => Iff.rfl
+  refine ⟨h.ver, h.fresh, h.committed, h.cur, h.excl, ?_, ?_, h.wusers, ?_, h.bound, h.users⟩
+  · intro m o hm
+    dsimp only at hm ⊢
+    rcases upd_opt_cases hm with ⟨_, hx⟩ | ⟨_, hold⟩
+    · simp at hx
+    · exact h.map m o hold
+  · intro u tx m o hu h1 h2
+    dsimp only
+    by_cases e : m = n0
+    · subst e; exact Or.inl (upd_same _ _ _)
+    · rw [upd_other _ _ _ _ e]; exact h.wmap u tx m o hu h1 h2
+  · intro hsh m
+    dsimp only at hsh ⊢
+    by_cases e : m = n0
+    · subst e; exact upd_same _ _ _
+    · rw [upd_other _ _ _ _ e]; exact h.pm hsh m
+
 end Sema.C09
